@@ -228,6 +228,12 @@ pub fn find<P: PType>(st: &MapSt<P>, cx: &Cx) -> (Vec<Viol>, u64) {
                             if let Some(x) = retag(compare_entries("TrieView::find", &got, &want), "C12", ctx()) {
                                 out.push(x);
                             }
+                            // the view's own entry: value() is the value stored exactly at its prefix
+                            let rp = norm(r.prefix().raw());
+                            if covers(vq, rp) {
+                                let wv = model.get(rp).map(|e| e.val);
+                                expect!(out, r.value().copied() == wv, "C11", "TrieView::value (after find)", "value", "{}: found view at {:x?}: value() = {:?}, stored {:?}", ctx(), rp, r.value(), wv);
+                            }
                         }
                     }
                     // ---- view_at on a view equals find
@@ -277,7 +283,16 @@ pub fn find<P: PType>(st: &MapSt<P>, cx: &Cx) -> (Vec<Viol>, u64) {
                     };
                     if let Some(vm) = mc.view_mut_at(mkp(vqk)) {
                         match vm.find(mkp(qk)) {
-                            Ok(r) => {
+                            Ok(mut r) => {
+                                let rp = norm(r.prefix().raw());
+                                if covers(vq, rp) {
+                                    let wv = model.obs_of(rp);
+                                    expect!(out, r.value().copied() == wv.map(|o| o.2), "C11", "TrieViewMut::value (after find)", "value", "{}: found view at {:x?}: value() = {:?}, stored {:x?}", ctx(), rp, r.value(), wv);
+                                    let vm_ = r.value_mut().map(|x| *x);
+                                    expect!(out, vm_ == wv.map(|o| o.2), "C13", "TrieViewMut::value_mut (after find)", "value", "{}: found view at {:x?}: value_mut() = {:?}, stored {:x?}", ctx(), rp, vm_, wv);
+                                    let pvm = r.prefix_value_mut().map(|(p, v)| obs(p, v));
+                                    expect!(out, pvm.map(|o| (norm((o.0, o.1)), o.2)) == wv.map(|o| (norm((o.0, o.1)), o.2)), "C13", "TrieViewMut::prefix_value_mut (after find)", "value", "{}: found view at {:x?}: prefix_value_mut() = {:x?}, stored {:x?}", ctx(), rp, pvm, wv);
+                                }
                                 let got: Vec<Obs> = r.into_iter().take(lim).map(|(p, v)| obs(p, v)).collect();
                                 if let Some(x) = retag(compare_entries("TrieViewMut::find", &got, &want), "C12", ctx()) {
                                     out.push(x);
